@@ -302,7 +302,7 @@ type IllegalCase struct {
 
 var illegalKinds = []string{"config-true-under-false", "config-true-under-false-deep", "config-true-in-grouping-used-under-false", "status-strengthened", "status-strengthened-deep",
 	"current-uses-deprecated-grouping", "current-type-obsolete-typedef", "deprecated-type-obsolete-typedef", "current-iffeature-deprecated-feature", "current-base-deprecated-identity",
-	"current-refine-deprecated-node", "current-uses-augment-deprecated-node", "current-augment-deprecated-node",
+	"current-refine-deprecated-node", "current-uses-augment-deprecated-node", "current-augment-deprecated-node", "current-grouping-uses-deprecated-grouping",
 	"deviate-add-existing", "deviate-delete-missing", "deviate-delete-wrong-value", "deviate-replace-missing", "not-supported-plus-other", "deviate-add-not-allowed", "deviate-unknown-target", "deviate-replace-not-allowed"}
 
 func leaf(name string) *sg.Node {
@@ -398,6 +398,36 @@ func buildIllegal(kind string, sub int, legal bool) []*sg.Mod {
 			top.Kids = append(top.Kids, &sg.Node{Kind: "container", Name: "early", Status: "obsolete", Kids: []*sg.Node{{Kind: "uses", Name: ref("g")}}})
 		}
 		top.Kids = append(top.Kids, u)
+	case "current-grouping-uses-deprecated-grouping":
+		// the reference is made by the grouping that holds the uses, wherever that grouping is used from (a deprecated
+		// container, another grouping, nowhere) and in whatever order the groupings are written
+		gdep := &sg.Grouping{Name: "gdep", Status: "deprecated", Kids: []*sg.Node{leaf("x")}}
+		g1 := &sg.Grouping{Name: "g1", Kids: []*sg.Node{{Kind: "uses", Name: ref("gdep")}}}
+		if v(2) == 1 {
+			g1.Kids = append([]*sg.Node{leaf("y")}, g1.Kids...)
+		}
+		if legal {
+			g1.Status = "deprecated"
+		}
+		g2 := &sg.Grouping{Name: "g2", Kids: []*sg.Node{{Kind: "container", Name: "c2", Status: "deprecated", Kids: []*sg.Node{{Kind: "uses", Name: ref("g1")}}}}}
+		site := v(4)
+		switch v(3) {
+		case 0:
+			m.Groupings = []*sg.Grouping{gdep, g1}
+		case 1:
+			m.Groupings = []*sg.Grouping{g1, gdep}
+		default:
+			m.Groupings = []*sg.Grouping{g2, gdep, g1}
+			if site == 3 {
+				top.Kids = append(top.Kids, &sg.Node{Kind: "container", Name: "viag2", Status: "deprecated", Kids: []*sg.Node{{Kind: "uses", Name: ref("g2")}}})
+			}
+		}
+		switch site {
+		case 1:
+			top.Kids = append(top.Kids, &sg.Node{Kind: "container", Name: "site", Status: "deprecated", Kids: []*sg.Node{{Kind: "uses", Name: ref("g1")}}})
+		case 2:
+			top.Kids = append([]*sg.Node{{Kind: "container", Name: "site", Status: "obsolete", Kids: []*sg.Node{{Kind: "uses", Name: ref("g1")}}}}, top.Kids...)
+		}
 	case "current-type-obsolete-typedef", "deprecated-type-obsolete-typedef":
 		m.Typedefs = []*sg.Typedef{{Name: "t1", Type: &sg.TypeSpec{Name: "string"}, Status: "obsolete"}}
 		l := &sg.Node{Kind: "leaf", Name: "x", Type: &sg.TypeSpec{Name: ref("t1")}}
